@@ -432,17 +432,20 @@ mod mon_bytes_run {
                 acc.inconclusive.push(format!("too few protocol {} pickles", p));
             }
         }
+        // long pickles of every protocol (memo beyond 256 entries, thousands of collapse items)
+        let (n_big, t_big) = if thorough { (24, 20_000) } else { (12, 6_000) };
         let big = par_run(
-            if thorough { 12 } else { 2 },
+            n_big,
             Acc::new,
             |i, acc| {
                 let cfg = Config {
-                    min: 20_000,
-                    max: 20_000,
+                    min: t_big,
+                    max: t_big,
                     ..Config::default_for((i % 6) as u8, Entropy::Seed(seed.wrapping_add(i as u64)))
                 };
                 let res = run_case(&cfg, None);
                 check_c05(&cfg, &res, acc);
+                acc.count("long_pickles", 1);
             },
             |a, b| a.merge(b),
         );
